@@ -236,11 +236,14 @@ class FakeFS:
             raise Crash()
         if kind == 'err':
             raise OSError(5, 'injected I/O error')
-        r = effect()
         if kind == 'ca':
+            try:
+                effect()
+            except Exception:
+                pass       # the process dies right after the system call returned, whatever it returned
             self.dead = True
             raise Crash()
-        return r
+        return effect()
 
     # -- the functions patched into frappy.persistent
     def open(self, path, mode='r', encoding=None, **kw):
@@ -655,6 +658,24 @@ class Tables:
                 x = float.fromhex(cv['f'])
                 if x == x and abs(x) < 2.0 ** 53 and x == int(x):
                     self.ints.add(int(x))
+                for sc in scales:
+                    if x == x and abs(x / sc) < 10 ** 6:
+                        self.ints.add(int(round(x / sc)))
+        scales = set()
+
+        def find_scales(dt):
+            if dt[0] == 'scaled':
+                scales.add(float(dt[1]))
+            elif dt[0] == 'array':
+                find_scales(dt[1])
+            elif dt[0] == 'tuple':
+                for d in dt[1]:
+                    find_scales(d)
+            elif dt[0] == 'struct':
+                for _, d in dt[1]:
+                    find_scales(d)
+        for p in case['params']:
+            find_scales(p['dt'])
         for p in case['params']:
             walk_cv(p['default'], visit)
         for op in case['ops']:
